@@ -1158,7 +1158,10 @@ rv = .false.
 
         sgroup = result_typemap.sgroup
         spointer = ast.get_indirect_stmt()
-        c_stmts = ["c", sgroup, spointer, "result", node.generated_suffix]
+        result_suffix = node.generated_suffix
+        if node.result_suffix is not None:
+            result_suffix = node.result_suffix
+        c_stmts = ["c", sgroup, spointer, "result", result_suffix]
         c_result_blk = statements.lookup_fc_stmts(c_stmts)
         c_result_blk = statements.lookup_local_stmts(
             ["c", node.generated_suffix], c_result_blk, node)
@@ -1211,7 +1214,7 @@ rv = .false.
             spointer = arg.get_indirect_stmt()
             if meta["is_result"]:
                 c_stmts = ["c", sgroup, spointer, "result",
-                           generated_suffix, deref_attr]
+                           result_suffix, deref_attr]
             else:
                 c_stmts = ["c", sgroup, spointer, intent,
                            arg.stmts_suffix, deref_attr, cdesc]
@@ -1603,6 +1606,9 @@ rv = .false.
         result_typemap = ast.typemap
         C_subprogram = C_node.ast.get_subprogram()
         generated_suffix = C_node.generated_suffix
+        result_suffix = generated_suffix
+        if C_node.result_suffix is not None:
+            result_suffix = C_node.result_suffix
         is_ctor = ast.is_ctor()
         is_dtor = ast.is_dtor()
         is_static = False
@@ -1642,9 +1648,9 @@ rv = .false.
                 c_stmts = ["c", "shadow", "ctor"]
             else:
                 sintent = "result"
-                f_stmts = ["f", sgroup, spointer, "result", generated_suffix,
+                f_stmts = ["f", sgroup, spointer, "result", result_suffix,
                            return_deref_attr, ast.attrs["owner"]]
-                c_stmts = ["c", sgroup, spointer, "result", generated_suffix]
+                c_stmts = ["c", sgroup, spointer, "result", result_suffix]
         fmt_func.F_subprogram = subprogram
 
         f_result_blk = statements.lookup_fc_stmts(f_stmts)
@@ -1773,8 +1779,8 @@ rv = .false.
             f_deref_attr = f_meta["deref"]
             if c_meta["is_result"]:
                 # This argument is the C function result
-                c_stmts = ["c", c_sgroup, c_spointer, "result", generated_suffix, c_deref_attr]
-                f_stmts = ["f", f_sgroup, f_spointer, "result", generated_suffix, f_deref_attr]
+                c_stmts = ["c", c_sgroup, c_spointer, "result", result_suffix, c_deref_attr]
+                f_stmts = ["f", f_sgroup, f_spointer, "result", result_suffix, f_deref_attr]
 
             else:
                 #                                             buf
